@@ -32,7 +32,8 @@ LEVEL_NOTE = ('pydicom is trusted to read the stored Part-10 file back; PDUs mix
 RULE = ('case = (message class, data length, fragment sizes, composition into PDUs, reception mode); distinct = same '
         'tuple; non-trivial = at least two fragments or file-backed reception')
 ASSUMPTIONS = ['fragment streams are well-formed as in C06 (command fragments first, one last fragment each)']
-REQUIRED = ['oracle.completion-exact', 'oracle.message-content', 'oracle.file-backed', 'oracle.via-provider']
+REQUIRED = ['oracle.completion-exact', 'oracle.message-content', 'oracle.file-backed', 'oracle.via-provider',
+            'oracle.consecutive-messages']
 
 MAXN = {'quick': 7, 'thorough': 10}
 NRANDOM = {'quick': 1500, 'thorough': 20000}
